@@ -245,6 +245,9 @@ pub fn generate(seed: u64, index: u64, thorough: bool) -> Scenario {
             }
         }
     }
+    if !hostile {
+        maybe_marathon(&mut sc, seed, index);
+    }
     sc
 }
 
